@@ -99,6 +99,7 @@ def ob_trigger(concl, enabled, rule_enabled, batch, special, label, first_enable
                         "for var in e.output_variables: var.fuzzy.clear()",
                         f"for var in e.output_variables: var.enabled = {enabled!r}[var.name]"]
             return "\n".join([PYREF, "install_abstract()", f"e = engine({(first_enabled if first_enabled is not None else enabled)!r})", f"rule = fl.Rule.create({text!r}, e)"] + warm + [
+                              ("rule.load(e)      # loading a loaded rule again replaces what it held" if batch else "pass"),
                               f"rule.enabled = {rule_enabled}", "imp = fl.Minimum()",
                               f"d = {('np.array(' + lit(dv) + ')') if batch else lit(dv[0])}", "d0 = np.array(d, dtype=float, copy=True)",
                               "rule.activation_degree = d", "rule.trigger(imp)",
@@ -127,6 +128,8 @@ def ob_trigger(concl, enabled, rule_enabled, batch, special, label, first_enable
                 for var in e.output_variables:
                     var.fuzzy.clear()
                     var.enabled = enabled[var.name]
+            if batch:
+                rule.load(e)          # loading a loaded rule again replaces what it held (no unload() in between)
             rule.enabled = rule_enabled
             imp = fl.Minimum()
             d = sym_array(ds) if batch else ds[0]
